@@ -12,22 +12,34 @@ recursion, never more read than needed, never a list bigger than the limits" is 
 parser MODELS (owned by C05 / C08, tied to the code by their correspondence streams and by this
 property's `pos.*` streams) and on the generic models of `Model/C19/Fuel.lean`; the limits are
 `Gen.Limits`, regenerated from /repo on every run.  Every model parser is a total Lean function:
-Lean's termination checker is the proof that it cannot hang.  The Python exception CLASS, the
-interpreter's recursion limit and wall-clock time are not Lean objects: those are observed by
-`harness/c19.py` only.
+Lean's termination checker is the proof that the MODEL cannot hang; the fuel-sufficiency theorems
+remove a modelling artefact (the fuel), they are not a statement about the Python interpreter.  NOT
+PROVED, observed by `harness/c19.py` only: the Python exception CLASS, the interpreter's recursion limit,
+CPU / wall-clock time, that the boolean verifiers answer instead of raising, and every consumer other
+than sizes / weight / re-parse (sighash, script engine, ids, PSBT roles are driven on accepted objects
+by the harness, not modelled here).
 -/
 namespace Props.C19
 open Btc Btc.Wire Btc.Fuel
 
 /-! ## T1 — exact consumption; the rest is a proper suffix; fuel = input length suffices -/
 
-/-- for every lawful wire class: the bytes a parser reads are exactly the serialization of what it
-    returns, what it leaves is exactly the rest (so a caller's stream stands on the byte after the
-    object: nothing more was read), and the bytes read are as many as the reported size. -/
-theorem parse_reads_exactly_the_object {α : Type} (c : Codec α) (h : Lawful c) (b : Bytes) (t : α)
-    (rest : Bytes) (hp : c.parse b = .ok (t, rest)) :
-    b = c.ser t ++ rest ∧ c.size t + rest.length = b.length :=
-  (h.consumed b t rest hp).2
+/-- for each modelled wire parser of btclib: the bytes it reads are exactly the serialization of what it
+    returns, what it leaves is exactly the rest (a caller's stream stands on the byte after the object:
+    nothing more was read), and the bytes read are as many as the reported size. -/
+theorem wire_parsers_read_exactly (H : Bytes → Bytes) :
+    (∀ m, ReadsExactly (varInt m)) ∧ ReadsExactly varBytes ∧ ReadsExactly outPoint ∧ ReadsExactly witness ∧
+    ReadsExactly txIn ∧ ReadsExactly txOut ∧ ReadsExactly tx ∧ ReadsExactly blockHeader ∧ ReadsExactly block ∧
+    ReadsExactly xkey ∧ ReadsExactly Psbt.record ∧ ReadsExactly (msg H) ∧ ReadsExactly msgHead ∧
+    ReadsExactly netAddr ∧ ReadsExactly timedAddr ∧ ReadsExactly addr ∧ ReadsExactly inventory ∧ ReadsExactly inv ∧
+    ReadsExactly locator ∧ ReadsExactly headers ∧ ReadsExactly versionBody :=
+  ⟨fun m => readsExactly_of (lawful_varInt m), readsExactly_of lawful_varBytes, readsExactly_of lawful_outPoint,
+   readsExactly_of lawful_witness, readsExactly_of lawful_txIn, readsExactly_of lawful_txOut, readsExactly_of lawful_tx,
+   readsExactly_of lawful_blockHeader, readsExactly_of lawful_block, readsExactly_of lawful_xkey,
+   readsExactly_of Psbt.lawful_record, readsExactly_of (lawful_msg H), readsExactly_of lawful_msgHead,
+   readsExactly_of lawful_netAddr, readsExactly_of lawful_timedAddr, readsExactly_of lawful_addr,
+   readsExactly_of lawful_inventory, readsExactly_of lawful_inv, readsExactly_of lawful_locator,
+   readsExactly_of lawful_headers, readsExactly_of lawful_versionBody⟩
 
 /-- each wire parser reads at least one byte whenever it answers: parsing object after object off a
     finite stream terminates (the rest is a PROPER suffix). -/
@@ -107,9 +119,9 @@ theorem tree_reads_exactly {σ α : Type} [DecidableEq σ] (d : Delims σ) (m : 
     s = printTree d pl t ++ rest ∧ rest.length < s.length :=
   ⟨parseTree_print d m leaf pl hl fuel depth s t rest hp, parseTree_consumes d m leaf hc fuel depth s t rest hp⟩
 
-/-- … and the recursion is bounded by the GENERATED depth limit whatever the input: a tree accepted
-    by the `tr()` grammar nests at most `MAX_TREE_DEPTH` braces, so the descent is never more than
-    `MAX_TREE_DEPTH + 1` frames deep (far below the interpreter's limit). -/
+/-- … and in the generic skeleton (one-letter leaves; the model the `tree` stream runs against
+    `descriptors.parse("tr(K,…)")`) the nesting of an accepted tree is within the GENERATED depth limit.
+    The same statement on C14's model of `_parse_tree` itself is `descriptor_tree_depth_bounded` below. -/
 theorem tree_depth_bounded (s : List Char) (t : Tree Char) (h : parseLetters s = some t) :
     t.depth ≤ Gen.Limits.MAX_TREE_DEPTH := by
   unfold parseLetters parseTreeAll at h
@@ -268,8 +280,11 @@ theorem accepted_message_is_bounded (H : Bytes → Bytes) (hH : ∀ x, 4 ≤ (H 
   simp only [List.length_append] at hl
   omega
 
-/-- Base58Check: a text above `MAX_LENGTH` is refused first — no digit is looked up, no big integer is
-    built, nothing is hashed (the same answer for every hash function). -/
+/-- Base58Check, in C06's model of `decode`: a text above `MAX_LENGTH` is refused by the model's first test —
+    before any digit is looked up, any big integer is built or anything is hashed (the same answer for every
+    hash function).  In btclib one step precedes it, `v.encode("ascii")` of a `str` argument (linear, refused
+    with BTClibValueError); that the length test comes before the alphabet walk is read off the source by the
+    model's author and tied by C06's streams, not proved here. -/
 theorem base58_length_is_checked_before_work (H : Bytes → Bytes) (v : List Nat) (o : Option Nat)
     (h : v.length > Gen.Base58.MAX_LENGTH) : Base58.decode H v o = .error .tooLong :=
   Base58.decode_too_long H v o h
@@ -286,6 +301,15 @@ theorem descriptor_fuel_suffices (o : Desc.KeyOracle) (e : List Char) (fuel : Na
     (∀ ctx, Desc.parseExpr o fuel ctx e = Desc.parseExpr o (e.length + 1) ctx e) := by
   obtain ⟨k, rfl⟩ := Nat.exists_eq_add_of_le h
   exact ⟨fun depth => Desc.parseTree_add o depth e k, fun ctx => Desc.parseExpr_add o ctx e k⟩
+
+/-- C14's model of `descriptors._parse_tree` (any key oracle, real leaves): a tree accepted at `depth`
+    enclosing braces nests at most `MAX_TREE_DEPTH - depth` further, on the LEFT AND ON THE RIGHT; so the
+    model's descent is never deeper than `MAX_TREE_DEPTH + 1` frames, whatever the text.  (That btclib's own
+    recursion passes `depth + 1` to both subtrees is tied by the `tree` stream and the nesting oracle, not
+    proved.) -/
+theorem descriptor_tree_depth_bounded (o : Desc.KeyOracle) (fuel depth : Nat) (e : List Char) (t : Desc.Tree)
+    (h : Desc.parseTree o fuel depth e = .ok t) : depth + Desc.treeHeight t ≤ Gen.Descriptor.MAX_TREE_DEPTH :=
+  Desc.parseTree_depth o fuel depth e t h
 
 /-- miniscript text (C15's recursive-descent model of `miniscript.parse`): every reader returns a rest no
     longer than its input, and any fuel above the length of the text gives the same answer. -/
